@@ -282,6 +282,9 @@ PROBES = [
     '10 ?"Q";A',
     '10 INPUT "NAME";N$,Q:PRINT N$;Q',
     '10 INPUT K:PRINT K',
+    # blanks that end the last line of the listing are content of an unquoted DATA item / an open string literal
+    '10 READ A$,B$:PRINT A$;"|";B$;"|"\n20 DATA EAST ,WEST  ', '10 READ A$,B$:PRINT A$;"|";B$;"|"\n20 DATA EAST ,WEST  \n',
+    '10 READ A$:PRINT A$;"|":GOTO 30\n20 DATA  MID  \n30 PRINT "E"',
     # what the prompt text ends in makes no difference: INPUT always adds "? ", LINE INPUT adds nothing
     '10 INPUT "READY?";N$:PRINT N$', '10 INPUT "WHY? ";N$:PRINT N$', '10 INPUT "?";K:PRINT K', '10 INPUT "? ";K:PRINT K',
     '10 INPUT "A?B";K:PRINT K', '10 INPUT " ";K:PRINT K', '10 INPUT "X:";N$,K:PRINT N$;K', '10 LINE INPUT "Q?";L$:PRINT L$',
